@@ -34,9 +34,9 @@ META_INVALID = [
     ["new", "Integer", 5, 1], ["new", "Integer", "0", 5], ["new", "Integer", True, 5], ["new", "Integer", -1, 5],
     ["new", "Decimal", 0, 9, 3, 1], ["new", "Decimal", 0, 9, "1"], ["new", "Decimal", 0, 9, -1],
     ["new", "Date", "dd.mm.yyyy"], ["new", "Date", ["list", "dd/mm/yyyy", "yyyy"]], ["new", "Word", 0, 3], ["new", "Word", 3, 1],
-    ["new", "Word", "2"], ["new", "Word", True], ["new", "WordContains", 5], ["new", "WordContains", ""], ["new", "Numeral", 1],
-    ["new", "Numeral", 40], ["new", "Numeral", 10, 0], ["new", "Numeral", 10, 3, 2], ["new", "Numeral", "10"],
-    ["new", "PositiveInteger", 0, 5], ["new", "NegativeInteger", -3, 5], ["new", "WordStartsWith", ["list", "a", 5]],
+    ["new", "Word", "2"], ["new", "Word", True], ["new", "WordContains", 5], ["new", "Numeral", 1],
+    ["new", "Numeral", 40], ["new", "Numeral", 10, 3, 2], ["new", "Numeral", "10"],
+    ["new", "NegativeInteger", -3, 5], ["new", "WordStartsWith", ["list", "a", 5]],
 ]
 BAD_ARGS = [5, None, 1.5, True, ["list", "a"]]
 LOOKBEHIND = ("PrecededBy", "preceded_by", "NotPrecededBy", "not_preceded_by", "EnclosedBy", "enclosed_by",
@@ -52,6 +52,7 @@ class Gen3(c20.Gen):
         super().__init__(rng)
         self.names = []          # set of group names per pool id
         self.ncap = 0
+        self.expect = None
 
     def names_of(self, rec):
         out = set()
@@ -63,12 +64,16 @@ class Gen3(c20.Gen):
         r = self.rng
         for _ in range(30):
             k = r.random()
+            self.expect = None
             if k < 0.08:
                 rec, kind = r.choice(META_VALID), "general"
             elif k < 0.13:
                 rec, kind = r.choice(META_INVALID), "general"
+                self.expect = "own"
             elif k < 0.20 and self.kinds:
                 rec, kind = self.invalid_call(), "general"
+                if not (rec[0] == "new" and rec[1] == "Date"):
+                    self.expect = "own"                  # invalid in a documented way: a pregex exception is due
             else:
                 rec, kind = self.build()
             rec = self.fix_names(rec)
@@ -129,7 +134,7 @@ class Gen3(c20.Gen):
         k = r.random()
         if k < 0.2:
             return r.choice([["new", "Capture", a, self.bad_name()], ["call", "capture", a, self.bad_name()],
-                             ["new", "Conditional", self.bad_name(), a], ["new", "Backreference", self.bad_name()]])
+                             ["new", "Conditional", self.bad_name(), a], ["new", "Backreference", str(self.bad_name()) + "-"]])
         if k < 0.35:
             return r.choice([["new", "Date", self.date_format()], ["new", "Date", ["list", self.date_format(), self.date_format()]]])
         return r.choice([
@@ -143,7 +148,7 @@ class Gen3(c20.Gen):
             ["new", "Conditional", r.choice(["2b", 5, ""]), a], ["new", "Conditional", "nm", bad],
             ["new", "FollowedBy", a], ["new", "NotFollowedBy", a, ""], ["new", "PrecededBy", a, bad],
             ["new", "NotPrecededBy", a, ["new", "OneOrMore", ["lit", "a"]]], ["new", "PrecededBy", a, ["new", "Optional", ["lit", "ab"]]],
-            ["new", "Concat"], ["new", "Either"], ["new", "Enclose", a], ["new", "Pregex", bad], ["new", "AnyFrom"],
+            ["new", "Pregex", bad], ["new", "AnyFrom"],
             ["new", "AnyFrom", "ab"], ["new", "AnyBetween", "b", "a"], ["new", "AnyBetween", a, "a"] if False else ["new", "AnyButFrom", bad],
             ["new", "MatchAtStart", bad], ["new", "Group", bad],
         ])
@@ -176,6 +181,8 @@ def generate(run_seed, tier):
         if wl.random() < 0.12:
             prog.append({"op": "export", "id": bid - 1 if bid > 0 and wl.random() < 0.5 else bid, "flags": wl.random() < 0.7})
         prog.append({"op": "build", "id": bid, "recipe": rec})
+        if g.expect:
+            prog[-1]["expect"] = g.expect
         if wl.random() < 0.25:
             prog[-1]["export_first"] = wl.random() < 0.7
         if wl.random() < 0.12:
@@ -299,9 +306,14 @@ def run_config(plan, inst, label, log, stats):
             continue
         c = classify(lambda: recipes.build(rec, inst.ns, pool), texts)
         stats["ops"] += 1
+        if op.get("expect") == "own" and c[0] in ("valid", "unusable"):
+            raise Violation("C03.missing_exception", "%s is invalid in a documented way but returned %r instead of raising a pregex "
+                            "exception [%s]" % (c20.show(rec), str(c[1]) if c[0] == "valid" else c[1], label))
         if c[0] == "own":
             outs[op["id"]] = "own:" + c[1]
             stats["own_exceptions"] += 1
+            if op.get("expect") == "own":
+                stats["expected_exceptions_checked"] += 1
         elif c[0] == "foreign":
             raise Violation("C03.foreign_exception:" + c[1], "%s raised %s (%s) [%s]" % (c20.show(rec), c[1], c[2], label))
         elif c[0] == "unusable":
@@ -345,7 +357,7 @@ def churn(inst, n):
 
 def execute(plan, inst, keep_log=False):
     log = EventLog(keep_log)
-    stats = {"exports": 0, "out_of_domain": 0, "ops": 0, "own_exceptions": 0, "valid": 0, "exempt_undefined_reference": 0, "configs": 0,
+    stats = {"expected_exceptions_checked": 0, "exports": 0, "out_of_domain": 0, "ops": 0, "own_exceptions": 0, "valid": 0, "exempt_undefined_reference": 0, "configs": 0,
              "shim_noncanonical": 0, "long_lived_runs": 0, "churn_objects": 0}
     results = []
     results.append(("real/fresh", run_config(plan, inst, "real hash order, fresh module instance", log, stats)))
@@ -413,7 +425,7 @@ EVIDENCE = {
             "Distinct = distinct event digest; non-trivial = some set iteration used a non-canonical order or the long-lived "
             "instance took part.",
     "measure": "(builder, spelling, outcome class)",
-    "probes": ["out_of_domain", "churn_objects", "own_exceptions", "valid", "exempt_undefined_reference", "shim_noncanonical", "long_lived_runs"],
+    "probes": ["expected_exceptions_checked", "out_of_domain", "churn_objects", "own_exceptions", "valid", "exempt_undefined_reference", "shim_noncanonical", "long_lived_runs"],
     "fault_kinds": [],
     "components": {"real": ["all of pregex", "re.compile as validity judge"],
                    "stub": ["set iteration order in shim configurations"]},
